@@ -211,6 +211,10 @@ func solveAll(prelude string, encs []*FnEnc, dir string, timeoutSec, workers int
 					continue
 				}
 				full := j.f.out.String()
+				prelude := prelude
+				if j.f.e != nil {
+					prelude = j.f.e.slimPrelude(prelude, full[:j.ob.Pos]+j.ob.Goal+j.ob.At)
+				}
 				var b strings.Builder
 				b.WriteString(prelude)
 				b.WriteString(full[:j.ob.Pos])
